@@ -9,6 +9,10 @@ CHECKS = {
    text="Bounded symbolic model checking of the real cafs write/read code (Write, pFlush, flush, Flush, Put, Read, ReadAt, WriteTo, leafFreelist, golang-lru from source): for every leaf size 2..4 B, every content length 0..2 leaves+1 (thorough: 3 leaves+1), every content byte (symbolic), every source chunking (one big Write or 2 solver-sized chunks), every read buffer size 1..2 leaves, every ReadAt offset/length incl. past EOF, short reads / EOF-with-data from the store, the solver shows written size, stored layout and returned bytes are exact. Leaf sizes are below cafs.New's 64 B..5 MiB guard because byte buffers are cell vectors of concrete length; the code is parametric in the leaf size.",
    note="Trusted: go/ssa, the gosmt interpreter (natively cross-validated on sampled paths every run), BLAKE2b as injective UF, in-memory object-store stub, one cooperative schedule for the flush goroutines. Outside: real leaf sizes (64 B..5 MiB), >3 leaves, cache eviction pressure, prefetch depth >1, leafTruncation.",
    design="DESIGN.md §6 C01"),
+ "C05": dict(
+   text="Bounded symbolic model checking of the real diff and update kernels: diffBundles over two bundles of 0..3 entries each (quick: at most 5 in total) with symbolic 1-byte names (unique per bundle) and symbolic 1-byte hashes - every listed path is justified (added = only in the new bundle, deleted = only in the old, changed = in both with different hashes) with the right entries attached, each path is listed at most once, and every path whose presence or hash differs is listed; downloadBundleEntries in update mode, driven through goroutines and channels exactly as unpackDataFiles drives it, for every combination of three files being absent / present with one of 2 (thorough 3) contents on either side and download concurrency 1..2 - afterwards the local copy holds exactly the target bundle's files with the target's contents and nothing else.",
+   note="Trusted: go/ssa, gosmt interpreter (natively cross-validated), the cooperative goroutine/channel model (one schedule), stub content store (objects named by key; byte-level cafs behaviour is C01), in-memory consumable store. Outside: the metadata rewrite at the end of Update (cafs.New + PublishMetadata + YAML), more than 3 files, PopulateFiles.",
+   design="DESIGN.md §6 C05"),
  "C20": dict(
    text="Bounded symbolic model checking of the metadata path builders and parser, the consumable-store path inverse, generated-file detection and the name validators (real code of pkg/model; strings.SplitN, path.Join, strconv, ksuid.Parse, unicode tables from source; regexp literals as an unrolled NFA of the compiled program): for every repo/label/context/split name of 1..3 arbitrary bytes without '/', every descriptor state, file-list indices at the boundary values up to 2^64-1, parse(build(x)) = x field by field for all 8 path kinds; two paths built by any two of 9 builders from names of 1..2 bytes are equal only if same kind and same names; IsGeneratedFile(s) equals the stated spec for every byte string of length 0..16; ValidateRepo/ValidateLabel never panic and accept a name iff every rune is in the documented alphabet, for all ASCII names of 1..3 bytes and all names made of one 2-byte rune (U+0080..U+07FF) alone or next to an ASCII byte. Partial: descriptor YAML round trips are not decided.",
    note="Trusted: go/ssa, gosmt interpreter (natively cross-validated), Go's regexp/syntax compiler for the NFA program, the Unicode 15 category data written out as the alphabet table. Outside: descriptor YAML round trip (yaml.v2 is reflection-driven third-party code), names longer than 3 bytes, runes from U+0800, symbolic ksuids (concrete well-formed ids are used), ValidateContext.",
